@@ -187,6 +187,14 @@ def main():
                     second[o] += 1
                     if o == "unsat": r["backend"] = r["backend"] + "+cvc5"
                     if o == "sat": engine_errors.append(f"back ends disagree on {r['name']} ({r['path']}): z3 unsat, cvc5 sat")
+        # thorough tier: the engine self-test - every source mutation recorded for this property must fail the predicted obligation
+        selftest = None
+        if tier == "thorough" and SRC == "/repo/src" and not os.environ.get("VERIF_NO_SELFTEST"):
+            rows = [m_["id"] for m_ in json.load(open(os.path.join(ROOT, "contracts", "mutations.json"))) if m_["property"] == pid]
+            if rows:
+                rc_m, out_m, err_m = sh([VT, os.path.join(ROOT, "tools", "mutation_table.py")] + rows, timeout=3000, env={"VERIF_NO_SELFTEST": "1"})
+                selftest = {"rows": rows, "ok": rc_m == 0, "lines": [l[:200] for l in out_m.strip().splitlines()]}
+                if rc_m != 0: engine_errors.append("mutation self-test: a recorded source mutation is no longer caught at the predicted obligation: " + "; ".join(l for l in selftest["lines"] if "MISSED" in l)[:400])
         vacuous = [k[1] for k, sts in cgroups.items() if all(x == "proved" for x in sts)] + [r["name"] + ":" + r["detail"] for r in guards if r["status"] != "proved"]
         refuted = [r for r in obligations if r["status"] == "refuted"]
         unknown = [r for r in obligations if r["status"] == "unknown"]
@@ -272,7 +280,7 @@ def main():
                "solver_time_s": round(sum(r["secs"] for r in obligations + canaries), 3),
                "paths_explored": sum(f.get("paths") or 0 for f in funcs), "paths_pruned": sum(f.get("pruned") or 0 for f in funcs),
                "canaries_refuted": sum(r["status"] != "proved" for r in canaries), "canaries_total": len(canaries),
-               "vacuity_guards": len(guards), "second_solver_cvc5": second,
+               "vacuity_guards": len(guards), "second_solver_cvc5": second, "mutation_self_test": selftest,
                "not_discharged": [{"obligation": r["name"], "path": r["path"], "status": r["status"], "known_finding": r.get("known_finding")} for r in obligations if r["status"] != "proved"][:40],
                "lean": ({"theorems": {t: lean["theorems"].get(t) for t in P.get("lean", [])}, "links": P.get("links", {}), "toolchain": lean.get("toolchain")} if lean else None),
                "bounded": hb, "samples": samples,
